@@ -52,6 +52,7 @@ type TxnSpec struct {
 	Causal      bool   `json:"causal"`
 	Ops         []Op   `json:"ops"`
 	Finish      string `json:"finish"` // commit (default) | rollback
+	Client      string   `json:"client"`      // C06 (program mode): client store the transaction runs on (default "c"+digits of its name)
 	FilterKeys  []string `json:"filter_keys"` // C06: txn.SetKVFilter declaring the buffer entries of these keys unnecessary
 }
 
@@ -524,7 +525,13 @@ func runProgram(sc *Scenario, e *env, out map[string]interface{}) {
 	steps := []map[string]interface{}{}
 	var smu sync.Mutex
 	pending := map[string]chan struct{}{}
-	clientOf := func(t string) string { return "c" + strings.TrimLeft(t, "t") }
+	clientOf := func(t string) string {
+		// C06: several transactions may share one client store (its store-wide lock-resolver cache): TxnSpec.client
+		if sp, ok := sc.Txns[t]; ok && sp.Client != "" {
+			return sp.Client
+		}
+		return "c" + strings.TrimLeft(t, "t")
+	}
 	if len(sc.Preload) > 0 {
 		c9 := e.store("c9")
 		txn, _ := c9.Begin()
